@@ -1,6 +1,7 @@
 package main
 
 import (
+	"sort"
 	"fmt"
 	"go/ast"
 	"go/token"
@@ -83,7 +84,7 @@ func (x *Exec) callCommon(fr *frame, st *State, cc *ssa.CallCommon, fnv Value, a
 		if i := strings.Index(cname, "["); i > 0 {
 			cname = cname[:i] // instance of a generic function: at-call conditions name the generic
 		}
-		nth := x.count(fr.name + "#atcallsite." + cname)
+		nth := x.callSiteOrdinal(fr, site, cname)
 		conds := append([]Clause(nil), x.fc.AtCall[cname]...)
 		conds = append(conds, x.fc.AtCall[fmt.Sprintf("%s@%d", cname, nth)]...)
 		for _, c := range conds {
@@ -91,6 +92,8 @@ func (x *Exec) callCommon(fr *frame, st *State, cc *ssa.CallCommon, fnv Value, a
 			n := nth
 			x.vc.oblige(&Obligation{Name: fmt.Sprintf("%s#atcall.%s@%d", fr.name, cname, n), Kind: "pre", Func: fr.name,
 				Guard: st.reach, Goal: g, Src: "before calling " + cname + ": " + c.Src, Pos: fmt.Sprintf("%s:%d", c.File, c.Line)})
+			// once proved, the condition is a fact on this path (a cut for the later obligations)
+			x.vc.assume(mkImplies(st.reach, x.evalBoolClause(fr, st, c, x.loopOpts(fr, nil))), "at-call condition (proved above) before "+cname)
 		}
 	}
 	if x.fc != nil && !x.forceInline {
@@ -364,37 +367,32 @@ func (x *Exec) applyContract(fr *frame, st *State, callee *ssa.Function, fc *Fun
 		// ghost-parametric postconditions of the callee, instantiated as the caller's contract asks;
 		// the instance terms are evaluated in the caller's state before the call
 		for _, gi := range x.fc.Instances {
-			for _, ie := range gi.Exprs {
+			for _, row := range gi.Rows {
+				var o2 *evalOpts
 				for _, e := range fc.Ensures {
-					if !mentionsIdentDeep(x, e.Expr, gi.Ghost) {
+					if !mentionsAny(x, e.Expr, gi.Ghosts) {
 						continue
 					}
-					func() {
-						defer func() {
-							if r := recover(); r != nil {
-								if _, ok := r.(structureError); !ok {
-									panic(r)
-								}
-							}
-						}()
-						iv := x.evalExpr(fr, st, ie.Expr, x.loopOpts(fr, nil))
-						cur := x.evalIdent(cfr, &pre, gi.Ghost, opts)
-						if sc, ok := cur.(Sc); ok {
-							if u, isU := iv.(Untyped); isU {
-								iv = x.coerceTo(u, sc.Sort, sc.Signed)
-							}
-							if isc, ok2 := iv.(Sc); ok2 && isc.Sort != sc.Sort {
-								iv = Sc{T: resize(isc.T, sc.W(), isc.Signed), Signed: sc.Signed}
-							}
+					if o2 == nil {
+						co := x.loopOpts(fr, nil)
+						io := x.instanceOpts(fr, st, gi, row, co, cfr, &pre)
+						if io == nil {
+							break
 						}
-						o2 := *opts
-						o2.ghost = map[string]Value{}
+						c2 := *opts
+						c2.ghost = map[string]Value{}
 						for k, v := range opts.ghost {
-							o2.ghost[k] = v
+							c2.ghost[k] = v
 						}
-						o2.ghost[gi.Ghost] = iv
-						g := x.evalBoolClause(cfr, &post, e, &o2)
-						x.vc.assume(mkImplies(st.reach, g), "postcondition of "+callee.Name()+" instance "+gi.Ghost+" := "+ie.Src)
+						for _, g := range gi.Ghosts {
+							c2.ghost[g] = io.ghost[g]
+						}
+						o2 = &c2
+					}
+					func() {
+						defer recoverStructure()
+						g := x.evalBoolClause(cfr, &post, e, o2)
+						x.vc.assume(mkImplies(st.reach, g), "postcondition of "+callee.Name()+" instance "+strings.Join(gi.Ghosts, ",")+" := "+row[0].Src)
 					}()
 				}
 			}
@@ -641,4 +639,44 @@ func (x *Exec) inlineWithFacts(fr *frame, st *State, callee *ssa.Function, fc *F
 		}
 	}
 	return res
+}
+
+// callSiteOrdinal numbers the static call sites of a callee inside the function under verification in
+// source order (1-based), independent of the order in which the symbolic execution reaches them.
+func (x *Exec) callSiteOrdinal(fr *frame, site ssa.Instruction, cname string) int {
+	if site == nil || fr.fn == nil {
+		return x.count(fr.name + "#atcallsite." + cname)
+	}
+	type cs struct {
+		in  ssa.Instruction
+		pos token.Pos
+	}
+	var sites []cs
+	for _, b := range fr.fn.Blocks {
+		for _, in := range b.Instrs {
+			ci, ok := in.(ssa.CallInstruction)
+			if !ok {
+				continue
+			}
+			var n string
+			if c := ci.Common().StaticCallee(); c != nil {
+				n = c.Name()
+			} else if bi, isB := ci.Common().Value.(*ssa.Builtin); isB {
+				n = bi.Name()
+			}
+			if i := strings.Index(n, "["); i > 0 {
+				n = n[:i]
+			}
+			if n == cname {
+				sites = append(sites, cs{in, in.Pos()})
+			}
+		}
+	}
+	sort.SliceStable(sites, func(i, j int) bool { return sites[i].pos < sites[j].pos })
+	for i, s := range sites {
+		if s.in == site {
+			return i + 1
+		}
+	}
+	return x.count(fr.name + "#atcallsite." + cname)
 }
